@@ -131,10 +131,10 @@ Proof. intros [H _]. apply H. Qed.
 (* ------------------------------------------------------------------ branches *)
 Lemma typed_brs_p_find Δ Γ rs bs b l pay k :
   typed_brs_p Δ Γ rs bs b -> find_branch l b = Some (pay, k) ->
-  exists A, find_br l bs = Some A /\ binder pay /\ Γ !! ident pay = None /\
-            typed Δ Γ (Some (ident pay)) (rs ∖ {[ident pay]}) A k.
+  exists A, find_br l bs = Some A /\ binder pay /\
+            typed Δ (delete (ident pay) Γ) (Some (ident pay)) (rs ∖ {[ident pay]}) A k.
 Proof.
-  induction 1 as [|Γ rs bs l' pay' k' r A Hf Hb Hfr Hk Hr IH]; simpl; [discriminate|].
+  induction 1 as [|Γ rs bs l' pay' k' r A Hf Hb Hk Hr IH]; simpl; [discriminate|].
   destruct (String.eqb l' l) eqn:E; [|auto].
   apply String.eqb_eq in E. subst l'. intros [= <- <-]. eauto.
 Qed.
@@ -287,6 +287,13 @@ Proof.
   intros Hb Hx Hne [H|[t H]]; [left; auto|]. right. exists t. eapply client_unbind; eauto.
 Qed.
 
+Lemma free_undelete Δ Γ sh c n : free_ok Δ (delete c Γ) sh n -> free_ok Δ Γ sh n.
+Proof.
+  intros [H|[t [H1 [Ha H2]]]]; [left; auto|]. right. exists t. split; auto. split; auto.
+  destruct (chan n); auto. destruct H2 as [H2 [t' [H3 H4]]]. split; auto. exists t'. split; auto.
+  apply lookup_delete_Some in H3. tauto.
+Qed.
+
 (* the provider was named `b` inside: outside, that name is bound *)
 Lemma free_unshadow Δ Γ sh b n :
   chan b = None -> name_equal n b = false -> free_ok Δ Γ (Some (ident b)) n -> free_ok Δ Γ sh n.
@@ -318,7 +325,7 @@ Proof.
   - (* RecvP *)
     match goal with IH : forall n, In n (free_names k) -> _, Hin : In _ (free_names k) |- _ => apply IH in Hin end.
     eapply (free_unshadow _ _ _ cont); eauto.
-    eapply (free_unbind _ _ _ _ _ pay); eauto.
+    eapply (free_undelete _ _ _ (ident cont)). eapply (free_unbind _ _ _ _ _ pay); eauto.
   - (* RecvC *)
     match goal with IH : forall n, In n (free_names k) -> _, Hin : In _ (free_names k) |- _ => apply IH in Hin end.
     eapply (free_unbind _ _ _ _ _ pay); eauto. eapply (free_unbind _ _ _ _ _ cont); eauto.
@@ -350,7 +357,7 @@ Proof.
       destruct Hin as [<-|Hin]; [right; eauto|auto].
   - (* ShiftP *)
     match goal with IH : forall n, In n (free_names k) -> _, Hin : In _ (free_names k) |- _ => apply IH in Hin end.
-    eapply (free_unshadow _ _ _ x); eauto.
+    eapply (free_unshadow _ _ _ x); eauto. eapply free_undelete; eauto.
   - (* ShiftC *)
     match goal with IH : forall n, In n (free_names k) -> _, Hin : In _ (free_names k) |- _ => apply IH in Hin end.
     eapply (free_unbind _ _ _ _ _ x); eauto.
@@ -365,7 +372,7 @@ Proof.
       apply in_merge_names in Hin; destruct Hin as [Hin|Hin]; auto;
       apply in_remove_bound in Hin; destruct Hin as [Hin Hne]; right;
       match goal with IH2 : forall n, In n (free_names k) -> _ |- _ => apply IH2 in Hin end;
-      eapply (free_unshadow _ _ _ pay); eauto end.
+      eapply (free_unshadow _ _ _ pay); eauto; eapply free_undelete; eauto end.
   - (* brs_c nil *) auto.
   - (* brs_c cons *)
     match goal with IH : forall acc n, In n (free_names_brs acc r) -> _, Hin : In _ (free_names_brs _ r) |- _ =>
@@ -711,13 +718,13 @@ Proof.
     match goal with Hf : find_br (m_label m) _ = Some _ |- _ =>
       destruct (brs_rel_find _ _ _ _ _ Hrel Hf) as [A' [HA' Hteq']] end.
     destruct (find_branch (m_label m) b) as [[pay k]|] eqn:Efb; [|exfalso; eapply Hcov; eauto].
-    destruct (typed_brs_p_find _ _ _ _ _ _ _ _ Hb Efb) as [A2 [HA2 [Hbd [Hfr Hk]]]].
+    destruct (typed_brs_p_find _ _ _ _ _ _ _ _ Hb Efb) as [A2 [HA2 [Hbd Hk]]]. rewrite delete_empty in Hk.
     rewrite HA' in HA2. injection HA2 as <-.
     eexists. exists Δ. split; [reflexivity|]. apply eff_typed_cont; auto. simpl.
     match goal with Hp : RtTyping.prov_ty _ _ (m_c1 m) _ |- _ =>
       destruct (prov_ty_conv _ _ _ _ Hp Hteq') as [c1 [t1 [Hc1 [Ht1 Hq1]]]] end.
     apply (proc_typed_single _ (m_c1 m) A' (rs ∖ {[ident pay]} ∪ {[""]})); [exists c1, t1; auto|].
-    apply tshadow; [apply Hbd | exact Hfr | exact Hk].
+    apply tshadow; [apply Hbd | apply lookup_empty | exact Hk].
   - (* RFWD *) eexists. exists Δ. split; [reflexivity|]. eapply fwd_request_ok; eauto.
 Qed.
 
@@ -1163,7 +1170,7 @@ Proof.
   destruct provs as [|n [|n2 rest]]; [contradiction| |].
   - (* one provider *)
     inversion Hprovs as [|? ? [k0 [T0 [Hk0 [HT0 Hs]]]] _]; subst.
-    inversion Hty; subst.
+    inversion Hty; subst; rewrite ?delete_empty in *.
     + eapply act_SendP; eauto.
     + eapply act_SendC; eauto.
     + eapply act_RecvP; eauto.
